@@ -291,6 +291,7 @@ class LinCombDomain(RadiiDomain):
         self.abstract_at_sumsq = abstract_at_sumsq  # forget the composition of a vector once its norm has been taken (keeps the norm proofs small)
         self.loop_defs = dict(loop_defs or {})      # (function, loop label) -> [(name, expression)]: an invariant of the form  name == expression, PROVED IN ANOTHER BUNDLE, used here as a definition at the loop head
         self.transfer_dots = transfer_dots          # when a vector is abstracted to one atom, keep its dot products with the other live vectors (definitional equations)
+        self.portfolio = bool(scalar_facts)        # nonlinear real queries: z3 and cvc5 side by side, the first definite answer wins (each is occasionally slow where the other is instant)
         self.scalar_facts = scalar_facts      # False: dot products and square roots are unconstrained reals (enough for the linear identities, keeps the queries linear in PHI)
         self.field_shapes = {}
         self.assumptions = [
